@@ -344,6 +344,13 @@ class DegEval:
                 return D(0)
             self.report("div", fn, "%s applied to a position-dependent value (degree %s): %s" % (name, [x.d for x in ds], show(t, maxd=4)))
             return D(T)
+        if name in ("into_iter", "iter", "by_ref", "copied", "cloned") and len(args) == 1 and isinstance(args[0], S) and args[0].ty in ("array", "tuple") and args[0].fields and "*" not in args[0].fields:
+            return args[0]        # an iterator over a literal array: carries the elements' degrees
+        if name in ("next", "next_back") and len(args) == 1 and isinstance(args[0], S) and args[0].ty == "array" and args[0].fields and "*" not in args[0].fields:
+            out = None
+            for v in args[0].fields.values():
+                out = v if out is None else jd(out, v)
+            return S("Option", {0: out})
         if name in ("unwrap_or", "unwrap", "expect", "unwrap_or_default", "unwrap_unchecked") and args:
             a = args[0]
             if isinstance(a, S) and a.ty in ("Option", "Some"):
